@@ -665,7 +665,9 @@ pub fn structured_tlv_list(i: usize, budget: usize, rng: &mut Rng) -> Vec<(u8, V
                 k = k.wrapping_add(1);
             }
         }
-        _ => { for k in 0..3 { list.push((0xE0 + k as u8, rng.bytes(k * 5))); list.push((0x00, vec![])); } }
+        _ => { for k in 0..3 { list.push((0xE0 + k as u8, rng.bytes(k * 5))); list.push((0x00, vec![])); }
+               // vendor TLVs: AWS VPC endpoint id (0xEA, subtype 1), Azure link id (0xEE, subtype 1), a CRC32C that is NOT the checksum
+               list.push((0xEA, b"\x01vpce-08d2bf15fac5001c9".to_vec())); list.push((0xEE, vec![1, 0x78, 0x56, 0x34, 0x12])); list.push((0x03, vec![0xde, 0xad, 0xbe, 0xef])); }
     }
     // never beyond the budget
     let mut used = 0usize;
